@@ -157,6 +157,9 @@ pub fn lift_type(reg: &LiftRegistry, ty: &syn::Type, self_ty: Option<&str>) -> R
                     }
                     return Ok("RArr2".into());
                 }
+                "HashMap" | "BTreeMap" | "IndexMap" if args.len() == 2 => {
+                    return Ok(format!("Map<{}, {}>", lift_type(reg, args[0], self_ty)?, lift_type(reg, args[1], self_ty)?))
+                }
                 "Option" if args.len() == 1 => return Ok(format!("Option<{}>", lift_type(reg, args[0], self_ty)?)),
                 "Arc" | "Box" if args.len() == 1 => return lift_type(reg, args[0], self_ty),
                 // L11: `Quantity<T, U>` without an //@ltype entry is its payload (units erased)
@@ -531,6 +534,12 @@ impl<'a> Lifter<'a> {
                         if let Some(fields) = self.reg.structs.get(&sname) {
                             if let Some((_, t)) = fields.iter().find(|(k, _)| *k == name) {
                                 return Ok(v(format!("{}.{name}", base.text), t));
+                            }
+                        }
+                        // a named field of an opaque record: the declared accessor `name(T)`
+                        if let Some((ptys, rty)) = self.reg.fns.get(&name).cloned() {
+                            if ptys.len() == 1 && ptys[0] == base.ty {
+                                return Ok(v(format!("crate::{name}({})", base.text), &rty));
                             }
                         }
                         Err(format!("construct outside rule list (lift): field `{name}` of type {}", base.ty))
@@ -1928,6 +1937,65 @@ impl<'a> Lifter<'a> {
         // (a..b).map(|i| e).collect()
         if name == "collect" {
             if let syn::Expr::MethodCall(mm) = &*m.receiver {
+                // L26: `xs.iter().filter_map(|x| <Option<(key, value)>>).collect()` into a map: a fold over the list in
+                // order, later entries replace earlier ones with the same key (std: HashMap::from_iter inserts in order)
+                if (mm.method == "filter_map" || mm.method == "map") && mm.args.len() == 1 {
+                    if let syn::Expr::MethodCall(it) = &*mm.receiver {
+                        if it.method == "iter" || it.method == "into_iter" {
+                            if let Ok(list) = self.expr(&it.receiver) {
+                                if list.ty == "OArr" {
+                                    let (pn, body) = self.closure1(&mm.args[0], "Rec")?;
+                                    let want_opt = mm.method == "filter_map";
+                                    let inner = if want_opt { body.ty.strip_prefix("Option<").and_then(|t| t.strip_suffix('>')).map(|t| t.to_string()) } else { Some(body.ty.clone()) };
+                                    if let Some(inner) = inner {
+                                        if inner.starts_with('(') {
+                                            let parts = split_top(&inner[1..inner.len() - 1]);
+                                            if parts.len() == 2 {
+                                                let (kt, vt) = (parts[0].trim().to_string(), parts[1].trim().to_string());
+                                                self.note("L26", whole.span(), "iter-filter_map-collect into a map lifted to an ordered fold (later entries win)");
+                                                let entry = if want_opt { body.text.clone() } else { format!("Some({})", body.text) };
+                                                // the entry function is a named item when the closure only mentions the
+                                                // function's parameters, so that contracts can refer to it without
+                                                // repeating the lifted text
+                                                let mentions_local = {
+                                                    struct Ids(Vec<String>);
+                                                    impl<'ast> syn::visit::Visit<'ast> for Ids {
+                                                        fn visit_ident(&mut self, i: &'ast proc_macro2::Ident) {
+                                                            self.0.push(i.to_string());
+                                                        }
+                                                    }
+                                                    let mut ids = Ids(vec![]);
+                                                    syn::visit::Visit::visit_expr(&mut ids, &mm.args[0]);
+                                                    syn::visit::Visit::visit_expr(&mut ids, &it.receiver);
+                                                    self.env.iter().skip(1).any(|fr| fr.keys().any(|k| ids.0.contains(k)))
+                                                };
+                                                if !mentions_local && self.closure_base.is_empty() {
+                                                    let n_e = self.havocs.iter().filter(|h| h.contains("__fold_entries")).count();
+                                                    let ename = format!("{}__fold_entries{}", self.fn_name, if n_e == 0 { String::new() } else { n_e.to_string() });
+                                                    let ps: Vec<String> = self.params.iter().map(|(n, t)| format!("{n}: {t}")).collect();
+                                                    let decl = format!(
+                                                        "pub open spec fn {ename}({}) -> spec_fn(int) -> Option<({kt}, {vt})> {{ |k__: int| {{ let {pn} = ({}.at)(k__); {entry} }} }}",
+                                                        ps.join(", "), list.text
+                                                    );
+                                                    if !self.havocs.contains(&decl) {
+                                                        self.havocs.push(decl);
+                                                    }
+                                                    let plist: Vec<String> = self.params.iter().map(|(n, _)| n.clone()).collect();
+                                                    return Ok(v(format!("map_fold::<{kt}, {vt}>({}.len, crate::{ename}({}))", list.text, plist.join(", ")), &format!("Map<{kt}, {vt}>")));
+                                                }
+                                                return Ok(v(
+                                                    format!("map_fold::<{kt}, {vt}>({0}.len, |k__: int| {{ let {pn} = ({0}.at)(k__); {entry} }})", list.text),
+                                                    &format!("Map<{kt}, {vt}>"),
+                                                ));
+                                            }
+                                        }
+                                    }
+                                    return unsupported("collect of non-pair elements", whole);
+                                }
+                            }
+                        }
+                    }
+                }
                 if mm.method == "map" {
                     let mut recv = &*mm.receiver;
                     while let syn::Expr::Paren(p) = recv {
@@ -2098,6 +2166,40 @@ impl<'a> Lifter<'a> {
                 ));
             }
             ("len", "OArr") => return Ok(v(format!("{}.len", recv.text), "int")),
+            ("is_empty", "OArr" | "RArr") => return Ok(v(format!("({}.len == 0int)", recv.text), "bool")),
+            ("get", t) if t.starts_with("Map<") && args.len() == 1 => {
+                let parts = split_top(&t[4..t.len() - 1]);
+                let vt = parts.get(1).map(|x| x.trim().to_string()).unwrap_or_default();
+                return Ok(v(format!("(if {0}.dom().contains({1}) {{ Some({0}[{1}]) }} else {{ None }})", recv.text, args[0].text), &format!("Option<{vt}>")));
+            }
+            ("contains_key", t) if t.starts_with("Map<") && args.len() == 1 => {
+                return Ok(v(format!("{}.dom().contains({})", recv.text, args[0].text), "bool"));
+            }
+            ("or_else", t) if t.starts_with("Option<") && m.args.len() == 1 => {
+                let syn::Expr::Closure(cl) = &m.args[0] else { return unsupported("or_else argument", whole) };
+                if !cl.inputs.is_empty() {
+                    return unsupported("or_else closure arity", whole);
+                }
+                let alt = self.scoped(&cl.body)?;
+                if alt.ty != t && !alt.ty.contains('?') {
+                    return Err(format!("construct outside rule list (lift): or_else of {} with {}", t, alt.ty));
+                }
+                return Ok(v(format!("(match {} {{ Some(x__) => Some(x__), None => {} }})", recv.text, alt.text), t));
+            }
+            ("and_then", t) if t.starts_with("Option<") && m.args.len() == 1 => {
+                let inner = t[7..t.len() - 1].to_string();
+                let (pn, body) = self.closure1(&m.args[0], &inner)?;
+                if !body.ty.starts_with("Option<") {
+                    return unsupported("and_then closure result", whole);
+                }
+                return Ok(v(format!("(match {} {{ Some({pn}) => {}, None => None }})", recv.text, body.text), &body.ty));
+            }
+            ("cloned", t) if t.starts_with("Option<") => return Ok(recv),
+            ("unwrap_or_default", t) if t.starts_with("Option<") => {
+                let inner = t[7..t.len() - 1].to_string();
+                let d = match inner.as_str() { "real" => "0real".to_string(), "int" => "0int".to_string(), "Rec" => "rec_default()".to_string(), _ => return unsupported("unwrap_or_default payload", whole) };
+                return Ok(v(format!("(match {} {{ Some(x__) => x__, None => {d} }})", recv.text), &inner));
+            }
             ("ok", t) if t.starts_with("Result<") && m.args.is_empty() => {
                 let inner = split_top(&t[7..t.len() - 1])[0].trim().to_string();
                 return Ok(v(format!("(match {} {{ Ok(x__) => Some(x__), Err(_) => None }})", recv.text), &format!("Option<{inner}>")));
